@@ -87,3 +87,229 @@ Proof.
       destruct (qltb_spec 0 z) as [L|L]; [qc|revert L; unfold Qclt; qc_arith; intros; lra]. }
     split; [split; assumption|]. cbn [in_range]. apply rsi_value_range; assumption.
 Qed.
+
+(* ------------------------------------------------------------------ windows *)
+Lemma lastn_incl {A} n (l : list A) : incl (lastn n l) l.
+Proof. unfold lastn. intros x Hx. rewrite <- (firstn_skipn (length l - n) l). apply in_or_app. right. exact Hx. Qed.
+Lemma lastn_length {A} n (l : list A) : length (lastn n l) = Nat.min n (length l).
+Proof. unfold lastn. rewrite skipn_length. lia. Qed.
+
+(* every defined value of a windowed indicator is f of a window of exactly w inputs, all taken from the series, the last of which
+   is the current input *)
+Lemma windowed_spec {A} (w : nat) (f : list A -> Qc) (P : list A -> Qc -> Prop) (InX : A -> Prop) :
+  (forall buf, length buf = w -> Forall InX buf -> P buf (f buf)) ->
+  forall xs, Forall InX xs -> Forall (fun o => match o with Some v => exists buf, length buf = w /\ Forall InX buf /\ P buf v | None => True end) (windowed w f xs).
+Proof.
+  intros H xs Hx. unfold windowed.
+  apply (mealy_forall _ (fun buf => Forall InX buf) InX); [|constructor|exact Hx].
+  intros buf x Hb Hx0. cbn [fst snd].
+  assert (Hb' : Forall InX (lastn w (buf ++ [x]))).
+  { apply Forall_forall. intros y Hy. apply lastn_incl in Hy. apply in_app_or in Hy. rewrite Forall_forall in Hb. destruct Hy as [Hy|[<-|[]]]; [apply Hb; exact Hy|exact Hx0]. }
+  split; [exact Hb'|]. destruct (Nat.ltb_spec (length (lastn w (buf ++ [x]))) w) as [L|L]; [exact I|].
+  exists (lastn w (buf ++ [x])). split; [rewrite lastn_length in *; lia|]. split; [exact Hb'|]. apply H; [rewrite lastn_length in *; lia|exact Hb'].
+Qed.
+
+Lemma qmaxl_ge l : forall d, d <= qmaxl d l /\ forall x, In x l -> x <= qmaxl d l.
+Proof.
+  unfold qmaxl. induction l as [|y l IH]; intros d; cbn [fold_left]; [split; [qc|intros x []]|].
+  destruct (IH (if qltb d y then y else d)) as [A B].
+  assert (M : d <= (if qltb d y then y else d) /\ y <= (if qltb d y then y else d)) by (destruct (qltb_spec d y); split; qc).
+  destruct M as [M1 M2]. split; [qc|]. intros x [<-|Hx]; [qc|apply B; exact Hx].
+Qed.
+Lemma qminl_le l : forall d, qminl d l <= d /\ forall x, In x l -> qminl d l <= x.
+Proof.
+  unfold qminl. induction l as [|y l IH]; intros d; cbn [fold_left]; [split; [qc|intros x []]|].
+  destruct (IH (if qltb y d then y else d)) as [A B].
+  assert (M : (if qltb y d then y else d) <= d /\ (if qltb y d then y else d) <= y) by (destruct (qltb_spec y d); split; qc).
+  destruct M as [M1 M2]. split; [qc|]. intros x [<-|Hx]; [qc|apply B; exact Hx].
+Qed.
+
+Definition sane (k : kc) : Prop := k_l k <= k_c k /\ k_c k <= k_h k.
+Definition hh (l : list kc) : Qc := qmaxl (k_h (hd dflt_kc l)) (map k_h l).
+Definition ll (l : list kc) : Qc := qminl (k_l (hd dflt_kc l)) (map k_l l).
+
+Lemma window_bounds (l : list kc) : l <> [] -> Forall sane l ->
+  (forall k, In k l -> ll l <= k_l k /\ k_h k <= hh l) /\ ll l <= k_c (last l dflt_kc) /\ k_c (last l dflt_kc) <= hh l /\ ll l <= hh l.
+Proof.
+  intros Hn Hs. rewrite Forall_forall in Hs.
+  assert (A : forall k, In k l -> ll l <= k_l k /\ k_h k <= hh l).
+  { intros k Hk. unfold ll, hh. split; [apply (proj2 (qminl_le (map k_l l) _)); apply in_map; exact Hk|apply (proj2 (qmaxl_ge (map k_h l) _)); apply in_map; exact Hk]. }
+  assert (Hl : In (last l dflt_kc) l) by (destruct l; [congruence|apply exists_last in Hn; destruct Hn as (l' & a & ->); rewrite last_last; apply in_or_app; right; left; reflexivity]).
+  destruct (A _ Hl) as [A1 A2]. destruct (Hs _ Hl) as [S1 S2]. split; [exact A|]. repeat split; qc.
+Qed.
+
+Lemma qofnat_2 : qofnat 2 = 1 + 1.
+Proof. apply Qc_is_canon. reflexivity. Qed.
+Lemma two_nonzero : (1 + 1 : Qc) <> 0.
+Proof. intros Z. apply eq_Q in Z. revert Z. cbn. lra. Qed.
+
+(* Donchian: lower <= middle <= upper, and the channel encloses every candle of the window *)
+Theorem donchian_ordered_and_enclosing (l : list kc) : l <> [] -> Forall sane l ->
+  ll l <= (hh l + ll l) / qofnat 2 /\ (hh l + ll l) / qofnat 2 <= hh l /\ forall k, In k l -> ll l <= k_l k /\ k_h k <= hh l.
+Proof.
+  intros Hn Hs. destruct (window_bounds l Hn Hs) as (A & _ & _ & B). split; [|split; [|exact A]].
+  - assert (E : (hh l + ll l) / qofnat 2 = ll l + (hh l - ll l) / qofnat 2) by (rewrite qofnat_2; field; exact two_nonzero).
+    rewrite E. assert (D : 0 <= (hh l - ll l) / qofnat 2) by (apply div_nonneg; [revert B; qc_arith; intros; lra|apply qofnat_pos; lia]).
+    set (d := (hh l - ll l) / qofnat 2) in *. clearbody d. qc_arith. lra.
+  - assert (E : (hh l + ll l) / qofnat 2 = hh l - (hh l - ll l) / qofnat 2) by (rewrite qofnat_2; field; exact two_nonzero).
+    rewrite E. assert (D : 0 <= (hh l - ll l) / qofnat 2) by (apply div_nonneg; [revert B; qc_arith; intros; lra|apply qofnat_pos; lia]).
+    set (d := (hh l - ll l) / qofnat 2) in *. clearbody d. qc_arith. lra.
+Qed.
+
+(* Williams %R in [-100, 0] and fast %K in [0, 100], for every window of sane candles *)
+Lemma ratio_bounds a b c : a <= b -> b <= c -> a <> c -> 0 <= (b - a) / (c - a) /\ (b - a) / (c - a) <= 1.
+Proof.
+  intros H1 H2 N. apply div_unit; [revert H1; qc_arith; intros; lra|revert H2; qc_arith; intros; lra|].
+  apply neq_Q in N. revert H1 H2 N. unfold Qcle, Qclt. qc_arith. intros. lra.
+Qed.
+
+Theorem willr_in_range p xs : (0 < p)%nat -> Forall sane xs -> Forall (in_range (- qofnat 100) 0) (willr p xs).
+Proof.
+  intros Hp Hs. unfold willr.
+  eapply Forall_impl; [|apply (windowed_spec p _ (fun _ v => - qofnat 100 <= v /\ v <= 0) sane); [|exact Hs]].
+  - intros [v|]; [intros (buf & _ & _ & H); exact H|auto].
+  - intros buf Hl Hb. assert (Hn : buf <> []) by (destruct buf; [cbn in Hl; lia|congruence]).
+    destruct (window_bounds buf Hn Hb) as (_ & A & B & Cc). fold (hh buf) (ll buf). pose proof (qofnat_nonneg 100) as H100.
+    destruct (qeqb_spec (hh buf - ll buf) 0) as [E|E]; [split; [revert H100; qc_arith; intros; lra|qc]|].
+    assert (N : ll buf <> hh buf) by (intros Z; apply E; rewrite Z; ring).
+    assert (R : (hh buf - k_c (last buf dflt_kc)) / (hh buf - ll buf) = 1 - (k_c (last buf dflt_kc) - ll buf) / (hh buf - ll buf)) by (field; exact E).
+    destruct (ratio_bounds _ _ _ A B N) as [R0 R1]. rewrite R.
+    set (r := (k_c (last buf dflt_kc) - ll buf) / (hh buf - ll buf)) in *. clearbody r. set (c := qofnat 100) in *. clearbody c. revert H100 R0 R1. qc_arith. intros. split; nra.
+Qed.
+
+Theorem stoch_k_in_range p xs : (0 < p)%nat -> Forall sane xs -> Forall (in_range 0 (qofnat 100)) (stoch_k p xs).
+Proof.
+  intros Hp Hs. unfold stoch_k.
+  eapply Forall_impl; [|apply (windowed_spec p _ (fun _ v => 0 <= v /\ v <= qofnat 100) sane); [|exact Hs]].
+  - intros [v|]; [intros (buf & _ & _ & H); exact H|auto].
+  - intros buf Hl Hb. assert (Hn : buf <> []) by (destruct buf; [cbn in Hl; lia|congruence]).
+    destruct (window_bounds buf Hn Hb) as (_ & A & B & Cc). fold (hh buf) (ll buf). pose proof (qofnat_nonneg 100) as H100.
+    destruct (qeqb_spec (hh buf - ll buf) 0) as [E|E]; [split; [qc|exact H100]|].
+    assert (N : ll buf <> hh buf) by (intros Z; apply E; rewrite Z; ring).
+    destruct (ratio_bounds _ _ _ A B N) as [R0 R1].
+    set (r := (k_c (last buf dflt_kc) - ll buf) / (hh buf - ll buf)) in *. clearbody r. set (c := qofnat 100) in *. clearbody c. revert H100 R0 R1. qc_arith. intros. split; nra.
+Qed.
+
+(* ------------------------------------------------------------------ volatility measures are non-negative *)
+Lemma qsum_fold l : forall a, fold_left Qcplus l a = a + Indicators.qsum l.
+Proof.
+  unfold Indicators.qsum. induction l as [|x r IH]; intros a; cbn [fold_left]; [ring|]. rewrite (IH (a + x)), (IH (0 + x)). ring.
+Qed.
+Lemma qsum_cons x l : Indicators.qsum (x :: l) = x + Indicators.qsum l.
+Proof. unfold Indicators.qsum at 1. cbn [fold_left]. rewrite qsum_fold. ring. Qed.
+
+Lemma mean_nonneg l : l <> [] -> Forall (fun x => 0 <= x) l -> 0 <= mean l.
+Proof. intros Hn H. unfold mean. apply div_nonneg; [apply qsum_nonneg; exact H|apply qofnat_pos; destruct l; [congruence|cbn; lia]]. Qed.
+
+Lemma true_range_nonneg ks : Forall sane ks -> Forall (fun x => 0 <= x) (true_range ks).
+Proof.
+  intros Hs. unfold true_range. apply (mealy_forall _ (fun _ => True) sane); [|exact I|exact Hs].
+  intros prev k _ [S1 S2]. cbn [fst snd]. split; [exact I|].
+  assert (HL : 0 <= k_h k - k_l k) by (revert S1 S2; qc_arith; intros; lra).
+  destruct prev as [pc|]; [|exact HL].
+  destruct (qltb_spec (k_h k - k_l k) (qabs (k_h k - pc))) as [L1|L1].
+  - destruct (qltb_spec (qabs (k_h k - pc)) (qabs (k_l k - pc))); [|]; set (a := qabs (k_h k - pc)) in *; set (b := qabs (k_l k - pc)) in *; clearbody a b; qc_arith; lra.
+  - destruct (qltb_spec (k_h k - k_l k) (qabs (k_l k - pc))); [set (b := qabs (k_l k - pc)) in *; clearbody b; qc_arith; lra|exact HL].
+Qed.
+
+Definition nonneg_opt (o : option Qc) : Prop := match o with Some v => 0 <= v | None => True end.
+
+Theorem atr_nonneg p ks : (0 < p)%nat -> Forall sane ks -> Forall nonneg_opt (atr p ks).
+Proof.
+  intros Hp Hs. unfold atr, seeded.
+  apply (mealy_forall _ (fun st : list Qc * option Qc => Forall (fun x => 0 <= x) (fst st) /\ match snd st with Some v => 0 <= v | None => True end) (fun x => 0 <= x));
+    [|split; [constructor|exact I]|apply true_range_nonneg; exact Hs].
+  intros [buf [prev|]] x [Hb Hv] Hx; cbn [fst snd] in *.
+  - pose proof (smooth_nonneg prev x p Hp Hv Hx) as A. split; [split; assumption|exact A].
+  - assert (Hb' : Forall (fun x => 0 <= x) (buf ++ [x])) by (apply Forall_app; split; [exact Hb|constructor; [exact Hx|constructor]]).
+    destruct (Nat.eqb (length (buf ++ [x])) p); cbn [fst snd]; [|split; [split; [exact Hb'|exact I]|exact I]].
+    assert (M : 0 <= mean (buf ++ [x])) by (apply mean_nonneg; [destruct buf; discriminate|exact Hb']).
+    split; [split; [exact Hb'|exact M]|exact M].
+Qed.
+
+(* variance = mean of squares - square of the mean is never negative (n * sum of squares >= square of the sum) *)
+Lemma sum_sq_shift l y : Indicators.qsum (map (fun x => (x - y) * (x - y)) l) =
+  Indicators.qsum (map (fun x => x * x) l) - (1 + 1) * y * Indicators.qsum l + qofnat (length l) * y * y.
+Proof.
+  assert (Z0 : qofnat 0 = 0) by (apply Qc_is_canon; reflexivity).
+  induction l as [|x r IH]; [unfold Indicators.qsum; cbn [map fold_left length]; rewrite Z0; ring|].
+  cbn [map length]. rewrite !qsum_cons, IH.
+  assert (E : qofnat (S (length r)) = 1 + qofnat (length r)).
+  { unfold qofnat. apply Qc_is_canon. rewrite this_plus, !this_Q2Qc. change (this 1) with 1%Q. rewrite Nat2Z.inj_succ. unfold Z.succ. rewrite inject_Z_plus. cbn. ring. }
+  rewrite E. ring.
+Qed.
+
+Lemma cauchy l : Indicators.qsum l * Indicators.qsum l <= qofnat (length l) * Indicators.qsum (map (fun x => x * x) l).
+Proof.
+  induction l as [|y r IH]; [unfold Indicators.qsum; cbn [map fold_left length]; assert (Z0 : qofnat 0 = 0) by (apply Qc_is_canon; reflexivity); rewrite Z0; qc_arith; lra|].
+  cbn [map length]. rewrite !qsum_cons.
+  assert (E : qofnat (S (length r)) = 1 + qofnat (length r)).
+  { unfold qofnat. apply Qc_is_canon. rewrite this_plus, !this_Q2Qc. change (this 1) with 1%Q. rewrite Nat2Z.inj_succ. unfold Z.succ. rewrite inject_Z_plus. cbn. ring. }
+  rewrite E.
+  assert (Sq : 0 <= Indicators.qsum (map (fun x => (x - y) * (x - y)) r)).
+  { apply qsum_nonneg. apply Forall_forall. intros z Hz. apply in_map_iff in Hz. destruct Hz as (x & <- & _). set (d := x - y). clearbody d. qc_arith. nra. }
+  rewrite (sum_sq_shift r y) in Sq.
+  set (S0 := Indicators.qsum r) in *. set (Q0 := Indicators.qsum (map (fun x => x * x) r)) in *. set (n := qofnat (length r)) in *. clearbody S0 Q0 n.
+  revert IH Sq. qc_arith. intros. nra.
+Qed.
+
+Theorem var_nonneg p xs : (0 < p)%nat -> Forall nonneg_opt (var p xs).
+Proof.
+  intros Hp. unfold var.
+  eapply Forall_impl; [|apply (windowed_spec p _ (fun _ v => 0 <= v) (fun _ => True)); [|apply Forall_forall; auto]].
+  - intros [v|]; [intros (buf & _ & _ & H); exact H|auto].
+  - intros buf Hl _. unfold mean. rewrite map_length, Hl.
+    pose proof (cauchy buf) as Cs. rewrite Hl in Cs. pose proof (qofnat_pos p Hp) as Pp. pose proof (inv_pos _ Pp) as Ip.
+    assert (Np : qofnat p <> 0) by (intros Z; rewrite Z in Pp; revert Pp; unfold Qclt; cbn; lra).
+    pose proof (mul_inv_r _ Np) as Mi. unfold Qcdiv.
+    set (S0 := Indicators.qsum buf) in *. set (Q0 := Indicators.qsum (map (fun x => x * x) buf)) in *. set (n := qofnat p) in *. set (i := / n) in *. clearbody S0 Q0 i n.
+    clear Np. qc_arith.
+    assert (K : (0 <= (this n * this Q0 - this S0 * this S0) * (this i * this i))%Q) by nra.
+    nra.
+Qed.
+
+(* ------------------------------------------------------------------ price-homogeneous averages scale linearly with price *)
+Lemma mealy_sim {X Y S} (step : S -> X -> S * Y) (g : X -> X) (h : Y -> Y) (R : S -> S -> Prop) :
+  (forall s1 s2 x, R s1 s2 -> R (fst (step s1 x)) (fst (step s2 (g x))) /\ snd (step s2 (g x)) = h (snd (step s1 x))) ->
+  forall xs s1 s2, R s1 s2 -> mealy step s2 (map g xs) = map h (mealy step s1 xs).
+Proof.
+  intros H. induction xs as [|x r IH]; intros s1 s2 HR; cbn [map mealy]; [reflexivity|].
+  destruct (H s1 s2 x HR) as [A B]. destruct (step s1 x) as [s1' y1]. destruct (step s2 (g x)) as [s2' y2]. cbn [fst snd] in *. subst y2.
+  cbn [map]. f_equal. apply IH. exact A.
+Qed.
+
+Lemma qsum_scale c l : Indicators.qsum (map (Qcmult c) l) = c * Indicators.qsum l.
+Proof. induction l as [|x r IH]; [unfold Indicators.qsum; cbn; ring|]. cbn [map]. rewrite !qsum_cons, IH. ring. Qed.
+Lemma mean_scale c l : l <> [] -> mean (map (Qcmult c) l) = c * mean l.
+Proof.
+  intros Hn. unfold mean. rewrite qsum_scale, map_length.
+  assert (N : qofnat (length l) <> 0) by (intros Z; pose proof (qofnat_pos (length l) ltac:(destruct l; [congruence|cbn; lia])) as P; rewrite Z in P; revert P; unfold Qclt; cbn; lra).
+  field. exact N.
+Qed.
+Lemma lastn_map {A B} (f : A -> B) n l : lastn n (map f l) = map f (lastn n l).
+Proof. unfold lastn. rewrite map_length. apply skipn_map. Qed.
+
+Lemma map_last_app {A B} (f : A -> B) l x : map f l ++ [f x] = map f (l ++ [x]).
+Proof. rewrite map_app. reflexivity. Qed.
+
+Definition scale_opt (c : Qc) (o : option Qc) : option Qc := match o with Some v => Some (c * v) | None => None end.
+
+Theorem sma_homogeneous c p xs : (0 < p)%nat -> sma p (map (Qcmult c) xs) = map (scale_opt c) (sma p xs).
+Proof.
+  intros Hp. unfold sma, windowed. apply (mealy_sim _ (Qcmult c) (scale_opt c) (fun b1 b2 => b2 = map (Qcmult c) b1)); [|reflexivity].
+  intros b1 b2 x ->. cbn [fst snd]. rewrite map_last_app. rewrite lastn_map. split; [reflexivity|]. rewrite map_length.
+  destruct (Nat.ltb_spec (length (lastn p (b1 ++ [x]))) p) as [L|L]; [reflexivity|]. cbn [scale_opt]. f_equal. apply mean_scale.
+  intros Z. rewrite Z in L. cbn in L. lia.
+Qed.
+
+Theorem ema_homogeneous c p xs : (0 < p)%nat -> ema p (map (Qcmult c) xs) = map (scale_opt c) (ema p xs).
+Proof.
+  intros Hp. unfold ema, seeded.
+  apply (mealy_sim _ (Qcmult c) (scale_opt c) (fun s1 s2 => fst s2 = map (Qcmult c) (fst s1) /\ snd s2 = scale_opt c (snd s1))); [|split; reflexivity].
+  intros [b1 [p1|]] [b2 o2] x [Hb Ho]; cbn [fst snd] in *; subst b2 o2; cbn [scale_opt snd fst].
+  - split; [split; [reflexivity|cbn [snd scale_opt]; f_equal; ring]|cbn [scale_opt]; f_equal; ring].
+  - rewrite map_last_app, map_length.
+    destruct (Nat.eqb (length (b1 ++ [x])) p); cbn [fst snd scale_opt]; [|repeat split; reflexivity].
+    assert (M : mean (map (Qcmult c) (b1 ++ [x])) = c * mean (b1 ++ [x])) by (apply mean_scale; destruct b1; discriminate).
+    rewrite M. repeat split; reflexivity.
+Qed.
